@@ -307,6 +307,17 @@ def mw_tree_shapes(tier):
             return [nest(ops["Y"] + [r1])] + ops["Z"] + [r0]
         if structure == "S4":
             return ops["X"] + [nest([r1]), nest(ops["Y"] + [r0])] + ops["Z"]
+        # S5/S6: ONE blueprint-building function mounted more than once (`bp.prefix("/v1").nest(api()); bp.prefix("/v2").nest(api())`):
+        # both mounts carry the same registrations with the SAME source locations (bpgen `loc`); every mount keeps its middlewares.
+        if structure == "S5":
+            api = ops["Y"] + ops["W"] + [r0]
+            return ops["X"] + [{"k": "nest", "prefix": "/v1", "loc": 900, "bp": {"ops": api}}] + ops["Z"] + \
+                [{"k": "nest", "prefix": "/v2", "loc": 900, "bp": {"ops": api}}]
+        if structure == "S6":
+            api = ops["Y"] + ops["W"] + [r0]
+            return [{"k": "nest", "prefix": "/v1", "loc": 900, "bp": {"ops": api}},
+                    {"k": "nest", "prefix": "/v2", "bp": {"ops": ops["X"] + [{"k": "nest", "loc": 900, "bp": {"ops": api}}]}},
+                    {"k": "nest", "prefix": "/v3", "loc": 900, "bp": {"ops": api}}]
         raise AssertionError(structure)
 
     if tier == "quick":
@@ -315,10 +326,12 @@ def mw_tree_shapes(tier):
             "S2": {"X": [None], "Y": ["pre", "wrap"], "Z": [None, "post", "wrap"]},
             "S3": {"Y": ["pre", "wrap"], "Z": ["pre", "post"]},
             "S4": {"X": [None, "pre"], "Y": ["post", "wrap"], "Z": ["pre", "wrap"]},
+            "S5": {"X": [None, "pre"], "Y": ["pre", "wrap", "post"], "W": [None, "post", "pre"], "Z": [None, "wrap"]},
+            "S6": {"X": [None, "wrap"], "Y": ["pre", "wrap"], "W": [None, "post"]},
         }
     else:
         domains = {"S1": {n: kinds for n in "XYZW"}, "S2": {n: kinds for n in "XYZ"}, "S3": {n: kinds for n in "YZ"},
-                   "S4": {n: kinds for n in "XYZ"}}
+                   "S4": {n: kinds for n in "XYZ"}, "S5": {n: kinds for n in "XYWZ"}, "S6": {n: kinds for n in "XYW"}}
     shapes = []
     for structure, dom in domains.items():
         names = list(dom)
